@@ -385,6 +385,18 @@ def generate(ctx):
         c_ = gen_prim(rng)
         if c_ is not None:
             yield c_
+    # long inputs: the reader's buffering must not show (a ^^X, control word, comment or blank run that straddles any
+    # internal block boundary is lexed like anywhere else)
+    for B in (255, 256, 511, 512, 1023, 1024, 2047, 2048, 4095, 4096, 8191, 8192, 16383, 16384, 65535, 65536):
+        for frag in ('^^Ib', '^^@x', '\\par\\par x', '\\ab  c', '%c\n\n x', 'a  \n  \n b', '\\^^M x', '^^'):
+            for delta in ((-2, -1, 0, 1) if ctx.tier == 'quick' else range(-6, 3)):
+                if B + delta >= 0 and (ctx.tier != 'quick' or B <= 16384):
+                    yield Case('tok', line(['D'], 'a' * (B + delta) + frag), None)
+    for _ in range(12 if ctx.tier == 'quick' else 150):
+        parts, total = [], 0
+        while total < 20000:
+            t = rng.choice(ADV); parts.append(t); total += len(t)
+        yield Case('tok', line(rand_table(rng) if rng.random() < 0.5 else ['D'], ''.join(parts)), None)
     n = 6000 if ctx.tier == 'quick' else 150000
     for _ in range(n):
         k = rng.choice([3, 6, 10, 20, 40, 200]) if rng.random() < 0.9 else rng.randint(0, 8)
